@@ -2052,12 +2052,21 @@ static int64_t eval2(Node *node, char ***label) {
   }
 
   switch (node->kind) {
-  case ND_ADD:
-    return wrap_to_type(node->ty, eval2(node->lhs, label) + eval(node->rhs));
-  case ND_SUB:
-    return wrap_to_type(node->ty, eval2(node->lhs, label) - eval(node->rhs));
-  case ND_MUL:
-    return wrap_to_type(node->ty, eval(node->lhs) * eval(node->rhs));
+  case ND_ADD: {
+    int64_t lhs = eval2(node->lhs, label);
+    int64_t rhs = eval(node->rhs);
+    return wrap_to_type(node->ty, lhs + rhs);
+  }
+  case ND_SUB: {
+    int64_t lhs = eval2(node->lhs, label);
+    int64_t rhs = eval(node->rhs);
+    return wrap_to_type(node->ty, lhs - rhs);
+  }
+  case ND_MUL: {
+    int64_t lhs = eval(node->lhs);
+    int64_t rhs = eval(node->rhs);
+    return wrap_to_type(node->ty, lhs * rhs);
+  }
   case ND_DIV: {
     int64_t rhs = eval(node->rhs);
     if (!rhs)
@@ -2085,38 +2094,77 @@ static int64_t eval2(Node *node, char ***label) {
     }
     return eval(node->lhs) % rhs;
   }
-  case ND_BITAND:
-    return eval(node->lhs) & eval(node->rhs);
-  case ND_BITOR:
-    return eval(node->lhs) | eval(node->rhs);
-  case ND_BITXOR:
-    return eval(node->lhs) ^ eval(node->rhs);
-  case ND_SHL:
-    return wrap_to_type(node->ty, eval(node->lhs) << eval(node->rhs));
-  case ND_SHR:
+  case ND_BITAND: {
+    int64_t lhs = eval(node->lhs);
+    int64_t rhs = eval(node->rhs);
+    return lhs & rhs;
+  }
+  case ND_BITOR: {
+    int64_t lhs = eval(node->lhs);
+    int64_t rhs = eval(node->rhs);
+    return lhs | rhs;
+  }
+  case ND_BITXOR: {
+    int64_t lhs = eval(node->lhs);
+    int64_t rhs = eval(node->rhs);
+    return lhs ^ rhs;
+  }
+  case ND_SHL: {
+    int64_t lhs = eval(node->lhs);
+    int64_t rhs = eval(node->rhs);
+    return wrap_to_type(node->ty, lhs << rhs);
+  }
+  case ND_SHR: {
+    int64_t lhs = eval(node->lhs);
+    int64_t rhs = eval(node->rhs);
     if (node->ty->is_unsigned && node->ty->size == 8)
-      return (uint64_t)eval(node->lhs) >> eval(node->rhs);
-    return eval(node->lhs) >> eval(node->rhs);
-  case ND_EQ:
-    if (has_flonum_operand(node))
-      return eval_double(node->lhs) == eval_double(node->rhs);
-    return eval(node->lhs) == eval(node->rhs);
-  case ND_NE:
-    if (has_flonum_operand(node))
-      return eval_double(node->lhs) != eval_double(node->rhs);
-    return eval(node->lhs) != eval(node->rhs);
-  case ND_LT:
-    if (has_flonum_operand(node))
-      return eval_double(node->lhs) < eval_double(node->rhs);
+      return (uint64_t)lhs >> rhs;
+    return lhs >> rhs;
+  }
+  case ND_EQ: {
+    if (has_flonum_operand(node)) {
+      long double lhs = eval_double(node->lhs);
+      long double rhs = eval_double(node->rhs);
+      return lhs == rhs;
+    }
+    int64_t lhs = eval(node->lhs);
+    int64_t rhs = eval(node->rhs);
+    return lhs == rhs;
+  }
+  case ND_NE: {
+    if (has_flonum_operand(node)) {
+      long double lhs = eval_double(node->lhs);
+      long double rhs = eval_double(node->rhs);
+      return lhs != rhs;
+    }
+    int64_t lhs = eval(node->lhs);
+    int64_t rhs = eval(node->rhs);
+    return lhs != rhs;
+  }
+  case ND_LT: {
+    if (has_flonum_operand(node)) {
+      long double lhs = eval_double(node->lhs);
+      long double rhs = eval_double(node->rhs);
+      return lhs < rhs;
+    }
+    int64_t lhs = eval(node->lhs);
+    int64_t rhs = eval(node->rhs);
     if (node->lhs->ty->is_unsigned)
-      return (uint64_t)eval(node->lhs) < eval(node->rhs);
-    return eval(node->lhs) < eval(node->rhs);
-  case ND_LE:
-    if (has_flonum_operand(node))
-      return eval_double(node->lhs) <= eval_double(node->rhs);
+      return (uint64_t)lhs < rhs;
+    return lhs < rhs;
+  }
+  case ND_LE: {
+    if (has_flonum_operand(node)) {
+      long double lhs = eval_double(node->lhs);
+      long double rhs = eval_double(node->rhs);
+      return lhs <= rhs;
+    }
+    int64_t lhs = eval(node->lhs);
+    int64_t rhs = eval(node->rhs);
     if (node->lhs->ty->is_unsigned)
-      return (uint64_t)eval(node->lhs) <= eval(node->rhs);
-    return eval(node->lhs) <= eval(node->rhs);
+      return (uint64_t)lhs <= rhs;
+    return lhs <= rhs;
+  }
   case ND_COND:
     return eval_truth(node->cond) ? eval2(node->then, label) : eval2(node->els, label);
   case ND_COMMA:
